@@ -174,12 +174,14 @@ def real_function(key: str):
 def to_jsonable(v):
     if isinstance(v, np.ndarray):
         return {"__nd__": v.tolist(), "dtype": str(v.dtype)}
+    # numpy scalars keep their type through a replay file (`x is y`, `type(x) is float`, integer division and overflow behave
+    # differently for numpy scalars and Python numbers)
     if isinstance(v, (np.integer,)):
-        return int(v)
+        return {"__np__": int(v), "dtype": str(v.dtype)}
     if isinstance(v, (np.floating,)):
-        return float(v)
+        return {"__np__": float(v), "dtype": str(v.dtype)}
     if isinstance(v, (np.bool_,)):
-        return bool(v)
+        return {"__np__": bool(v), "dtype": "bool"}
     if isinstance(v, tuple):
         return {"__tuple__": [to_jsonable(x) for x in v]}
     if isinstance(v, list):
@@ -195,6 +197,8 @@ def from_jsonable(v):
     if isinstance(v, dict):
         if "__nd__" in v:
             return np.array(v["__nd__"], dtype=v.get("dtype", "float64"))
+        if "__np__" in v:
+            return np.dtype(v.get("dtype", "float64")).type(v["__np__"])
         if "__tuple__" in v:
             return tuple(from_jsonable(x) for x in v["__tuple__"])
         if "__complex__" in v:
